@@ -304,3 +304,137 @@ Proof.
   unfold room_loop in Hloop; cbn [fn_body cf_bufs_findroom] in Hloop. change (Z.of_nat 0) with 0 in Hloop. rewrite Hloop.
   xstep. reflexivity.
 Qed.
+
+(* ------------------------------------------------------------------ stores into a field of a slot *)
+Lemma wrap_I16_range z : -32768 <= wrap I16 z <= 32767.
+Proof.
+  unfold wrap. cbn [ity_bits ity_signed andb]. change (2 ^ 16) with 65536. change (2 ^ (16 - 1)) with 32768.
+  pose proof (Z.mod_pos_bound z 65536 ltac:(lia)). destruct (Z.leb_spec 32768 (z mod 65536)); lia.
+Qed.
+Lemma wrap_I16_id z : -32768 <= z <= 32767 -> wrap I16 z = z.
+Proof.
+  intro H. unfold wrap. cbn [ity_bits ity_signed andb]. change (2 ^ 16) with 65536. change (2 ^ (16 - 1)) with 32768.
+  destruct (Z.leb_spec 32768 (z mod 65536)) as [L|L].
+  - assert (z < 0) by (destruct (Z.lt_ge_cases z 0); [assumption|rewrite Z.mod_small in L by lia; lia]).
+    rewrite <- (Z.mod_add z 1 65536) by lia. rewrite Z.mod_small by lia. lia.
+  - assert (0 <= z) by (destruct (Z.lt_ge_cases z 0); [|assumption]; exfalso;
+      rewrite <- (Z.mod_add z 1 65536) in L by lia; rewrite Z.mod_small in L by lia; lia).
+    apply Z.mod_small. lia.
+Qed.
+Lemma wrap_I16_idem z : wrap I16 (wrap I16 z) = wrap I16 z.
+Proof. apply wrap_I16_id. apply wrap_I16_range. Qed.
+Lemma wrap_I16_I32 z : wrap I32 (wrap I16 z) = wrap I16 z.
+Proof. apply wrap_I32_id. pose proof (wrap_I16_range z). lia. Qed.
+
+Lemma tab_split t i : (i < length t)%nat -> tab_cells t = tab_cells (firstn i t) ++ slot_cells (nths t i) ++ tab_cells (skipn (S i) t).
+Proof.
+  intro H. rewrite <- (firstn_skipn i t) at 1. rewrite (nths_skipn t i H). unfold tab_cells. rewrite flat_map_app. reflexivity.
+Qed.
+(* replacing cell j of slot i replaces slot i *)
+Lemma tab_upd_cell t i j v s' : Forall slot_ok t -> (i < length t)%nat -> (j < 41)%nat ->
+  slot_cells s' = upd (slot_cells (nths t i)) j v ->
+  upd (tab_cells t) (41 * i + j) v = tab_cells (upd t i s').
+Proof.
+  intros Hs Hi Hj Hs'. rewrite (tab_split t i Hi).
+  assert (Hlen : length (tab_cells (firstn i t)) = (41 * i)%nat).
+  { unfold tab_cells. rewrite (chunks_length slot_cells 41); [rewrite firstn_length; lia|]. apply tab_chunks. apply Forall_firstn'. exact Hs. }
+  assert (Hsi : slot_ok (nths t i)) by (rewrite Forall_forall in Hs; apply Hs, nth_In; exact Hi).
+  rewrite upd_app_r by lia. rewrite Hlen. replace (41 * i + j - 41 * i)%nat with j by lia.
+  rewrite upd_app_l by (rewrite slot_len by exact Hsi; lia). rewrite <- Hs'.
+  unfold upd. unfold tab_cells. rewrite flat_map_app. reflexivity.
+Qed.
+Lemma tab_store m t i j v z t' : tab_at m t -> tab_ok t -> (i < 16)%nat -> (j < 41)%nat -> z = Z.of_nat (41 * i + j) ->
+  upd (tab_cells t) (41 * i + j) v = tab_cells t' -> store m G_bufs z v = Ok (upd m G_bufs (tab_cells t')).
+Proof.
+  intros Hm Ht Hi Hj -> Hu. rewrite (store_ok m G_bufs (tab_cells t)); [|exact Hm|rewrite (tab_len t Ht); lia].
+  rewrite Nat2Z.id, Hu. reflexivity.
+Qed.
+Lemma tab_at_upd m t t' : tab_at m t -> tab_at (upd m G_bufs (tab_cells t')) t'.
+Proof. intro H. unfold tab_at. apply mem_upd_same. apply nth_error_Some. unfold tab_at in H. congruence. Qed.
+Lemma tab_ok_upd t i s' : tab_ok t -> slot_ok s' -> (i < 16)%nat -> tab_ok (upd t i s').
+Proof.
+  intros [Hl Hs] H' Hi. split; [rewrite upd_length; lia|]. unfold upd. apply Forall_app. split; [apply Forall_firstn'; exact Hs|].
+  constructor; [exact H'|apply Forall_skipn'; exact Hs].
+Qed.
+
+(* the field setters and what they do to the cells of the slot *)
+Definition set_cs_row (s : cslot) (x : Z) := mkcs (cs_ft s) (cs_path s) (cs_lb s) x (cs_off s) (cs_top s) (cs_left s) (cs_id s) (cs_td s) (cs_mtime s).
+Definition set_cs_off (s : cslot) (x : Z) := mkcs (cs_ft s) (cs_path s) (cs_lb s) (cs_row s) x (cs_top s) (cs_left s) (cs_id s) (cs_td s) (cs_mtime s).
+Definition set_cs_top (s : cslot) (x : Z) := mkcs (cs_ft s) (cs_path s) (cs_lb s) (cs_row s) (cs_off s) x (cs_left s) (cs_id s) (cs_td s) (cs_mtime s).
+Definition set_cs_left (s : cslot) (x : Z) := mkcs (cs_ft s) (cs_path s) (cs_lb s) (cs_row s) (cs_off s) (cs_top s) x (cs_id s) (cs_td s) (cs_mtime s).
+Definition set_cs_id (s : cslot) (x : Z) := mkcs (cs_ft s) (cs_path s) (cs_lb s) (cs_row s) (cs_off s) (cs_top s) (cs_left s) x (cs_td s) (cs_mtime s).
+Definition set_cs_td (s : cslot) (x : Z) := mkcs (cs_ft s) (cs_path s) (cs_lb s) (cs_row s) (cs_off s) (cs_top s) (cs_left s) (cs_id s) x (cs_mtime s).
+Definition set_cs_view (s : cslot) (r o tp l td : Z) := mkcs (cs_ft s) (cs_path s) (cs_lb s) r o tp l (cs_id s) td (cs_mtime s).
+
+Lemma slot_upd_tail s k v s' : slot_ok s -> cs_ft s' = cs_ft s -> cs_tail s' = upd (cs_tail s) k v ->
+  slot_cells s' = upd (slot_cells s) (32 + k) v.
+Proof.
+  intros H Hf Ht. unfold slot_cells. rewrite upd_app_r by (rewrite H; lia). rewrite H, Hf, Ht. f_equal. f_equal. lia.
+Qed.
+(* a store into scalar field k (cell 32 + k) of slot i *)
+Lemma tab_store_fld m t i k v z s' : tab_at m t -> tab_ok t -> (i < 16)%nat -> (k < 9)%nat -> z = Z.of_nat (41 * i + (32 + k)) ->
+  cs_ft s' = cs_ft (nths t i) -> cs_tail s' = upd (cs_tail (nths t i)) k v ->
+  store m G_bufs z v = Ok (upd m G_bufs (tab_cells (upd t i s'))).
+Proof.
+  intros Hm Ht Hi Hk Hz Hf Htl. pose proof Ht as [Hl Hs].
+  apply (tab_store m t i (32 + k) v z); try assumption; try lia.
+  apply tab_upd_cell; try assumption; try lia.
+  apply slot_upd_tail; try assumption. rewrite Forall_forall in Hs. apply Hs, nth_In. lia.
+Qed.
+
+(* ------------------------------------------------------------------ the cursor globals *)
+Record globs_at (m : mem) (r o tp l td : Z) : Prop := mk_globs {
+  g_row : cell_at m G_xrow r; g_off : cell_at m G_xoff o; g_top : cell_at m G_xtop tp;
+  g_left : cell_at m G_xleft l; g_td : cell_at m G_xtd td }.
+Lemma globs_upd_bufs m blk r o tp l td : (G_bufs < length m)%nat -> globs_at m r o tp l td -> globs_at (upd m G_bufs blk) r o tp l td.
+Proof. intros Hb [H1 H2 H3 H4 H5]. constructor; apply cell_at_upd_other; try assumption; discriminate. Qed.
+
+(* ------------------------------------------------------------------ bufs_save *)
+Definition save0 (t : list cslot) (r o tp l td : Z) : list cslot :=
+  match t with s :: rest => set_cs_view s r o tp l (wrap I16 td) :: rest | [] => [] end.
+
+Ltac slot0_off k :=
+  match goal with |- context [store ?m G_bufs ?z ?v] => replace z with (Z.of_nat (41 * 0 + (32 + k))) by lia end.
+
+(* bufs_save(): the five cursor globals are copied into row, off, top, left, td of slot 0 (td is a short: the value is
+   converted); nothing else changes.  For any table and any int values of the globals. *)
+Theorem tr_bufs_save m t r o tp l td d fuel : tab_at m t -> tab_ok t -> globs_at m r o tp l td ->
+  int_ok r -> int_ok o -> int_ok tp -> int_ok l -> int_ok td ->
+  callf cprog fuel (S d) F_bufs_save [] m = Ok (VUndef, upd m G_bufs (tab_cells (save0 t r o tp l td))).
+Proof.
+  intros Hm Ht Hg Ir Io Itp Il Itd. pose proof Ht as [Hl Hs]. destruct t as [|s rest]; [discriminate Hl|].
+  assert (Hb : (G_bufs < length m)%nat) by (apply nth_error_Some; unfold tab_at in Hm; congruence).
+  enter F_bufs_save cf_bufs_save. xstep.
+  (* row *)
+  rewrite (load_cell m G_xrow r (g_row _ _ _ _ _ _ Hg)). xstep. rewrite !(wrap_int_ok r Ir). slot0_off 2%nat.
+  rewrite (tab_store_fld m (s :: rest) 0 2 (VInt r) _ (set_cs_row s r) Hm Ht) by (try lia; reflexivity). xstep.
+  cbn [upd firstn skipn app]. set (s1 := set_cs_row s r).
+  pose proof (tab_at_upd m (s :: rest) (s1 :: rest) Hm) as Hm1.
+  assert (Ht1 : tab_ok (s1 :: rest)) by (apply (tab_ok_upd (s :: rest) 0 s1 Ht); [inversion Hs; assumption|lia]).
+  pose proof (globs_upd_bufs m (tab_cells (s1 :: rest)) _ _ _ _ _ Hb Hg) as Hg1.
+  (* off *)
+  rewrite (load_cell _ G_xoff o (g_off _ _ _ _ _ _ Hg1)). xstep. rewrite !(wrap_int_ok o Io). slot0_off 3%nat.
+  rewrite (tab_store_fld _ (s1 :: rest) 0 3 (VInt o) _ (set_cs_off s1 o) Hm1 Ht1) by (try lia; reflexivity). xstep.
+  rewrite upd_upd by exact Hb. cbn [upd firstn skipn app]. set (s2 := set_cs_off s1 o).
+  pose proof (tab_at_upd m (s :: rest) (s2 :: rest) Hm) as Hm2.
+  assert (Ht2 : tab_ok (s2 :: rest)) by (apply (tab_ok_upd (s :: rest) 0 s2 Ht); [inversion Hs; assumption|lia]).
+  pose proof (globs_upd_bufs m (tab_cells (s2 :: rest)) _ _ _ _ _ Hb Hg) as Hg2.
+  (* top *)
+  rewrite (load_cell _ G_xtop tp (g_top _ _ _ _ _ _ Hg2)). xstep. rewrite !(wrap_int_ok tp Itp). slot0_off 4%nat.
+  rewrite (tab_store_fld _ (s2 :: rest) 0 4 (VInt tp) _ (set_cs_top s2 tp) Hm2 Ht2) by (try lia; reflexivity). xstep.
+  rewrite upd_upd by exact Hb. cbn [upd firstn skipn app]. set (s3 := set_cs_top s2 tp).
+  pose proof (tab_at_upd m (s :: rest) (s3 :: rest) Hm) as Hm3.
+  assert (Ht3 : tab_ok (s3 :: rest)) by (apply (tab_ok_upd (s :: rest) 0 s3 Ht); [inversion Hs; assumption|lia]).
+  pose proof (globs_upd_bufs m (tab_cells (s3 :: rest)) _ _ _ _ _ Hb Hg) as Hg3.
+  (* left *)
+  rewrite (load_cell _ G_xleft l (g_left _ _ _ _ _ _ Hg3)). xstep. rewrite !(wrap_int_ok l Il). slot0_off 5%nat.
+  rewrite (tab_store_fld _ (s3 :: rest) 0 5 (VInt l) _ (set_cs_left s3 l) Hm3 Ht3) by (try lia; reflexivity). xstep.
+  rewrite upd_upd by exact Hb. cbn [upd firstn skipn app]. set (s4 := set_cs_left s3 l).
+  pose proof (tab_at_upd m (s :: rest) (s4 :: rest) Hm) as Hm4.
+  assert (Ht4 : tab_ok (s4 :: rest)) by (apply (tab_ok_upd (s :: rest) 0 s4 Ht); [inversion Hs; assumption|lia]).
+  pose proof (globs_upd_bufs m (tab_cells (s4 :: rest)) _ _ _ _ _ Hb Hg) as Hg4.
+  (* td *)
+  rewrite (load_cell _ G_xtd td (g_td _ _ _ _ _ _ Hg4)). xstep. rewrite !(wrap_int_ok td Itd), wrap_I16_idem. slot0_off 7%nat.
+  rewrite (tab_store_fld _ (s4 :: rest) 0 7 (VInt (wrap I16 td)) _ (set_cs_td s4 (wrap I16 td)) Hm4 Ht4) by (try lia; reflexivity). xstep.
+  rewrite upd_upd by exact Hb. reflexivity.
+Qed.
